@@ -98,8 +98,10 @@ type Recorder struct {
 	Yield    func() // scheduler yield point (nil = none)
 	Injected error
 	Name     string
-	raw      [][]any // the attribute values handed to each action, as received
-	MaxActs  int     // action-call budget (0 = 3000): a parser that keeps reducing without reading input is cut off
+	raw      [][]any     // the attribute values handed to each action, as received
+	MaxActs  int         // action-call budget (0 = 3000): a parser that keeps reducing without reading input is cut off
+	OnAct    func(n int) // called after the n-th action call was recorded (the adapter uses it to reassign Parser.Context)
+	SwitchAt int         // context mode 3: Parser.Context is reassigned after this many action calls
 }
 
 // BudgetExceeded is the panic value used to stop a run that exceeds its scan or action budget (non-termination).
@@ -137,6 +139,9 @@ func A(c any, alt int, args ...any) (any, error) {
 	rec.Log = append(rec.Log, Event{Kind: "act", N: alt, Args: conv, Ctx: ctx})
 	rec.raw = append(rec.raw, append([]any(nil), args...))
 	rec.acts++
+	if rec.OnAct != nil {
+		rec.OnAct(rec.acts)
+	}
 	if max := rec.MaxActs; (max == 0 && rec.acts > 3000) || (max > 0 && rec.acts > max) {
 		panic(BudgetExceeded{})
 	}
@@ -217,17 +222,18 @@ type Tables struct {
 
 // Impl is everything an adapter exposes for one compiled grammar.
 type Impl struct {
-	ID           string
-	NewLexer     func(src []byte) Lexer
-	NewLexerCtx  func(src []byte) Lexer // lexer whose Context field is set (tokens must carry it: Token.Ctx)
-	NumLexStates int
-	TransTab     func(s int, r rune) int
-	ActTab       func(s int) (accept int, ignore string)
-	TokId        func(t int) string
-	TokType      func(id string) int
-	NewParser    func() Parser
-	Tables       func() *Tables
-	ErrorString  func(errObj any) string // err.Error() of the raw error value
+	ID            string
+	NewLexer      func(src []byte) Lexer
+	NewLexerCtx   func(src []byte) Lexer // lexer whose Context field is set (tokens must carry it: Token.Ctx)
+	NumLexStates  int
+	TransTab      func(s int, r rune) int
+	ActTab        func(s int) (accept int, ignore string)
+	TokId         func(t int) string
+	TokType       func(id string) int
+	NewParser     func() Parser
+	Tables        func() *Tables
+	ErrorString   func(errObj any) string   // err.Error() of the raw error value
+	ErrorExpected func(errObj any) []string // a copy of the ExpectedTokens field of the raw error value (nil if it is not a parser error)
 }
 
 var (
